@@ -232,7 +232,13 @@ func c18Layout(c *ctx) {
 	}
 	bad := ""
 	// HMAC-SHA512 keyed with the chain code
-	hm := core.CallsTo(fn, "crypto/hmac.New")
+	// the MAC computation may sit in a private helper (hmacSHA512(key, data)): read through
+	var hm []ssa.CallInstruction
+	for _, g := range unitFuncs(fn) {
+		if g.Parent() == nil {
+			hm = append(hm, core.CallsTo(g, "crypto/hmac.New")...)
+		}
+	}
 	if len(hm) != 1 {
 		bad += "expected one hmac.New; "
 	} else {
@@ -240,8 +246,8 @@ func c18Layout(c *ctx) {
 		if f, ok := core.Strip(a[0]).(*ssa.Function); !ok || f.String() != "crypto/sha512.New" {
 			bad += "the MAC is not HMAC-SHA512; "
 		}
-		if !strings.HasSuffix(descr(a[1]), "ChainCode") {
-			bad += "the MAC key is " + descr(a[1]) + ", not the parent chain code; "
+		if k := core.ResolveIn(fn, a[1]); !strings.HasSuffix(descr(k), "ChainCode") {
+			bad += "the MAC key is " + descr(k) + ", not the parent chain code; "
 		}
 	}
 	// data buffer: make(37); copy(data, serializeCompressed(pk.X, pk.Y)); PutUint32(data[33:], index)
@@ -282,6 +288,16 @@ func c18Layout(c *ctx) {
 			}
 			if call.Call.IsInvoke() && call.Call.Method.Name() == "Write" && core.Strip(call.Call.Args[0]) == data {
 				okWrite = true
+			}
+		}
+		for _, g := range unitFuncs(fn) {
+			if g == fn || g.Parent() != nil {
+				continue
+			}
+			for _, cs := range core.Calls(g) {
+				if call, isCall := cs.(*ssa.Call); isCall && call.Call.IsInvoke() && call.Call.Method.Name() == "Write" && core.ResolveIn(fn, call.Call.Args[0]) == core.Strip(data) {
+					okWrite = true
+				}
 			}
 		}
 		if !okCopy {
